@@ -33,12 +33,16 @@ KINDS = {
     "E": 'let e%d = fail "boom";',                      # evaluation error: nothing after it runs
     "I": 'let i%d = (import "./no_such_helper.ucg").x;',      # an import that cannot be loaded: the file does not build (nor does the next file that tries)
     "J": 'let j%d = (import "./broken_helper.ucg").x;',       # an import with a syntax error: the same
+    # an assertion inside a module that is instantiated inside a function body / a map callback: evaluated once, counts like any other
+    "M": 'let mm%d = module {} => { assert {ok = false, desc = "in module %d"}; };\nlet ff%d = func () => mm%d{};\nlet rr%d = ff%d();',
+    "m": 'let mm%d = module {} => { assert {ok = true, desc = "in module %d"}; };\nlet ff%d = func () => mm%d{};\nlet rr%d = ff%d();',
+    "C": 'let mm%d = module {} => { assert {ok = false, desc = "in callback %d"}; };\nlet rr%d = map(func (it) => mm%d{}, [0]);',
     "A": 'let a%d = (import "./lib_failing_assert.ucg").x;',  # a library with a failing assertion of its own: evaluated in this file, so it counts here
     "L": 'let v%d = 1 + 1;',                            # an ordinary statement
     "n": 'assert %d;',                                  # not a tuple, visible to the checker: the file does not build
     "b": 'assert {ok = %d, desc = "b"};',               # ok not a boolean, visible to the checker
 }
-ASSERT_OK = {"T": True, "F": False, "N": False, "B": False, "D": False, "A": False}
+ASSERT_OK = {"T": True, "F": False, "N": False, "B": False, "D": False, "A": False, "M": False, "m": True, "C": False}
 STATIC = "nb"
 # An identity the static checker cannot see through (a plain `func (x) => x` is typed as its
 # argument since the checker binds a callee's parameters at the call): the select's NULL default
@@ -47,7 +51,7 @@ PRELUDE = "let idf = func (x) => select (\"a\", NULL) => {a = x};\n"
 
 
 def file_text(kinds):
-    return PRELUDE + "\n".join(KINDS[k] % i for i, k in enumerate(kinds)) + "\n"
+    return PRELUDE + "\n".join(KINDS[k].replace("%d", str(i)).replace("%.0s", "") for i, k in enumerate(kinds)) + "\n"
 
 
 def model_file(kinds):
@@ -289,6 +293,7 @@ def run(ctx):
     kinds = "TFNBDE"
     files = [""] + ["".join(p) for ln in range(1, maxlen + 1) for p in itertools.product(kinds, repeat=ln)]
     files += ["".join(p) for ln in range(1, 3) for p in itertools.product(kinds + STATIC, repeat=ln) if any(c in STATIC for c in p)]
+    files += ["".join(p) for ln in range(1, 4) for p in itertools.product("TFMmC", repeat=ln) if any(c in "MmC" for c in p)]
     reps = [r for r in REPRESENTATIVE if r not in SHARED_BROKEN]
     shared = list(SHARED_BROKEN) + ["pass", "fail"]
     seqs = [(o, "args") for ln in range(1, 4) for o in itertools.permutations(shared, ln) if any(x in SHARED_BROKEN for x in o)]
